@@ -372,6 +372,19 @@ func c10Eval(t *testing.T, run *h.Run, c c10Case) {
 				return rs.Name
 			})
 		}
+		if c.NodeAnnot == "good" {
+			perturb("the node's override annotation (removed)", func(in client.Client) string {
+				n := &corev1.Node{}
+				_ = in.Get(ctx, types.NamespacedName{Name: "n1"}, n)
+				for k := range n.Annotations {
+					if k != "unrelated" {
+						delete(n.Annotations, k)
+					}
+				}
+				_ = in.Update(ctx, n)
+				return rs.Name
+			})
+		}
 		if c.NodeAnnot == "absent" {
 			perturb("the node's override annotation (added)", func(in client.Client) string {
 				n := &corev1.Node{}
